@@ -4,6 +4,7 @@ import Driver.C01
 import Driver.C02
 import Driver.C03
 import Driver.C04
+import Driver.C06
 import Driver.C09
 import Driver.C10
 import Driver.C11
@@ -22,6 +23,8 @@ def dispatch (p op : String) (c i : Json) : Except String (Json × String) :=
   | "C02" => D02.handle op c i
   | "C03" => D03.handle op c i
   | "C04" => D04.handle op c i
+  | "C06" => D06.handle op c i
+  | "C07" => D06.handle op c i
   | "C09" => D09.handle op c i
   | "C10" => D10.handle op c i
   | "C11" => D11.handle op c i
